@@ -312,6 +312,24 @@ namespace bloch::compiler {
                              "generic type is nested too deeply (more than " +
                                  std::to_string(kMaxTypeNesting) + " levels)");
         }
+        // ... and a class with several type parameters multiplies the *size* of the type at every
+        // access (8 parameters, 9 accesses: 8^9 nodes) while the depth stays small
+        constexpr size_t kMaxTypeNodes = 4096;
+        size_t budget = kMaxTypeNodes;
+        std::function<bool(const TypeInfo&)> fits = [&](const TypeInfo& ti) {
+            if (budget == 0)
+                return false;
+            --budget;
+            for (const auto& a : ti.typeArgs)
+                if (!fits(a))
+                    return false;
+            return true;
+        };
+        if (!fits(out)) {
+            throw BlochError(ErrorCategory::Semantic, 0, 0,
+                             "generic type is too large (more than " +
+                                 std::to_string(kMaxTypeNodes) + " type names)");
+        }
         return out;
     }
 
